@@ -64,7 +64,12 @@ def _cand(rng, fam, tag, wrap_p=0.5, mode=None):
                 'exc': rng.choice(['RuntimeError', 'RuntimeError', 'NotImplementedError',
                                    'ValueError', 'KeyError', 'TypeError', 'ZeroDivisionError',
                                    'FloatingPointError', 'AssertionError', 'OverflowError'])}
-    return {'fam': fam, 'form': rng.choice(['class', 'name', 'instance']), 'tag': tag}
+    c = {'fam': fam, 'form': rng.choice(['class', 'name', 'instance']), 'tag': tag}
+    if c['form'] == 'instance' and fam == 'truncated':
+        # both bounds positionally, or only one of the two configured (the other one is then
+        # taken from the data)
+        c['inst'] = rng.choice(['both', 'both', 'min_only', 'max_only'])
+    return c
 
 
 def _gen_select(rng):
@@ -129,6 +134,7 @@ def _gen_gmv(rng):
                 if len(cols) >= d - 1:
                     break
         cfg['cols'] = cols
+        cfg['mapkind'] = zoo.mapkind_for(sorted(cols), d, table['seed'])
     elif form in ('class', 'name'):
         cfg['cand'] = {'fam': rng.choice(fast), 'form': form, 'tag': 'D'}
     else:
@@ -213,6 +219,10 @@ def _make_cand(c):
         return inst, None
     if c['form'] == 'instance':
         if c['fam'] == 'truncated':
+            if c.get('inst') == 'min_only':
+                return zoo.load_class(name)(minimum=-1e6), None
+            if c.get('inst') == 'max_only':
+                return zoo.load_class(name)(maximum=1e6), None
             # a prototype built with positional constructor arguments
             return zoo.load_class(name)(-1e6, 1e6), None
         if c['fam'] == 'kde':
@@ -429,6 +439,7 @@ def _run_gmv(ctx, run):
             obj, shared = _make_cand(c)
             dist[col] = obj
             protos[col] = (obj, shared, c)
+        dist = zoo.make_map(dist, cfg.get('mapkind'))    # dict, OrderedDict or a dict subclass
     else:
         objs = [_make_cand(c) for c in cfg['cands']]
         kw_ = {}
